@@ -40,9 +40,9 @@ const RUN_LENGTHS: [u32; 6] = [2, 4, 8, 16, 64, 512];
 /// images per child process
 const CHUNK: usize = 4000;
 /// seconds one altered image may take before the child is killed (outcome class Abort/SIGALRM)
-const PER_IMAGE_ALARM_S: u32 = 60;
+const PER_IMAGE_ALARM_S: u32 = 30;
 /// address-space limit of a child: an allocation request beyond it aborts the child
-const CHILD_AS_LIMIT: u64 = 6 << 30;
+const CHILD_AS_LIMIT: u64 = 2 << 30;
 
 pub const CFG_A: Cfg = Cfg::new(512, Some(32 * 1024), 0);
 pub const CFG_B: Cfg = Cfg::new(512, None, 1024 * 1024);
@@ -600,7 +600,9 @@ fn exec_image(
     };
     // teardown
     if let Some(db) = slot.take() {
-        let counted = close && out.class != Class::Panic;
+        // the clean close belongs to the procedure only when the database was certified (Ok(true))
+        // or reported repaired (Ok(false)); after a reported error nothing more is required
+        let counted = close && matches!(out.class, Class::Clean | Class::Repaired);
         if !counted {
             // verdict already formed: make the teardown cheap and ignore what it does
             backend.lock().fault_at = Some((0, crate::backend::FaultMode::Permanent));
@@ -859,8 +861,8 @@ fn child_main(spec: &str) -> i32 {
         libc::setrlimit(libc::RLIMIT_AS, &lim);
         // every image is a fresh ~1 MB buffer: keep such buffers on the heap instead of mapping
         // and unmapping (and page-faulting) them every time
-        libc::mallopt(libc::M_MMAP_THRESHOLD, 256 << 20);
-        libc::mallopt(libc::M_TRIM_THRESHOLD, 512 << 20);
+        libc::mallopt(libc::M_MMAP_THRESHOLD, 16 << 20);
+        libc::mallopt(libc::M_TRIM_THRESHOLD, 64 << 20);
         // no core files for expected aborts
         let z = libc::rlimit { rlim_cur: 0, rlim_max: 0 };
         libc::setrlimit(libc::RLIMIT_CORE, &z);
@@ -1088,6 +1090,7 @@ pub fn run(tier: &str) -> i32 {
     let mut calls = 0u64;
     let mut hist: BTreeMap<&'static str, BTreeMap<&'static str, u64>> = BTreeMap::new();
     let mut per_base: Vec<BTreeMap<&'static str, u64>> = vec![BTreeMap::new(); bases.len()];
+    let mut per_base_sites: Vec<BTreeMap<String, u64>> = vec![BTreeMap::new(); bases.len()];
     let mut distinct: BTreeSet<(usize, Class, Option<usize>, String)> = BTreeSet::new();
     let mut distinct_samples: BTreeMap<(usize, Class, Option<usize>, String), (usize, usize, u64)> = BTreeMap::new();
     let mut viols: BTreeMap<String, ClassInfo> = BTreeMap::new();
@@ -1126,8 +1129,9 @@ pub fn run(tier: &str) -> i32 {
                     *phase_hist.entry(o.class.code()).or_default().entry(o.phase).or_default() += 1;
                     if let Some((key, msg)) = &o.viol {
                         let mut targets = vec![viols.entry(key.clone()).or_default()];
-                        if o.class == Class::Panic {
+                        if o.class == Class::Panic || o.class == Class::Abort {
                             targets.push(sites.entry(o.detail.clone()).or_default());
+                            *per_base_sites[bi].entry(o.detail.clone()).or_default() += 1;
                         }
                         for ci in targets {
                             ci.key = key.clone();
@@ -1222,6 +1226,7 @@ pub fn run(tier: &str) -> i32 {
             "tables": b.decoded.tables.iter().map(|(n, t)| format!("{n}: {} pages, height {}", t.pages.len(), t.tree_height)).collect::<Vec<_>>(),
             "alterations_executed": b.space.alts.len(),
             "outcomes": per_base[bi],
+            "panic_and_abort_sites": per_base_sites[bi],
         }));
     }
     let fam_json = |a: &[u64; 6]| -> Value { json!(FAMILIES.iter().zip(a.iter()).map(|(f, n)| (f.to_string(), *n)).collect::<BTreeMap<_, _>>()) };
@@ -1264,7 +1269,7 @@ pub fn run(tier: &str) -> i32 {
     rep.cov("close_is_part_of_the_procedure", json!(with_close(tier)));
     rep.cov(
         "rule",
-        json!("base images = histories x {closed, crash-stopped} x configs; per base image every alteration of: (1) each byte of the read set x {8 single-bit flips, :=0x00, :=0xFF} (patterns equal to the original or to one of the flips dropped), (2) 0x00/0xFF runs of length 2,4,8,16,64,512 at every run-length-aligned position inside the 320-byte header and every live page (pages referenced by the independent decoder), (3) every pair of equal-sized live pages swapped, (4) truncation to every page boundary of the last region, extension by one page of 0x00 / 0xFF. An alteration that keeps the file length and touches no byte of the read set (bytes served while the unaltered image is opened, checked, read and closed) is counted, not executed: the execution is identical. Per altered image: open, check_integrity(), read everything through the public API, after Ok(false) a second check_integrity() and read; in the thorough tier also the clean close (in the quick tier the database is torn down with a failing backend and the teardown is ignored). A case is non-trivial when its outcome is anything but `Ok(true)` with the contents of the last commit point; distinct_nontrivial counts distinct (family, outcome class, commit point served, normalised error text / panic site)."),
+        json!("base images = histories x {closed, crash-stopped} x configs; per base image every alteration of: (1) each byte of the read set x {8 single-bit flips, :=0x00, :=0xFF} (patterns equal to the original or to one of the flips dropped), (2) 0x00/0xFF runs of length 2,4,8,16,64,512 at every run-length-aligned position inside the 320-byte header and every live page (pages referenced by the independent decoder), (3) every pair of equal-sized live pages swapped, (4) truncation to every page boundary of the last region, extension by one page of 0x00 / 0xFF. An alteration that keeps the file length and touches no byte of the read set (bytes served while the unaltered image is opened, checked, read and closed) is counted, not executed: the execution is identical. Per altered image: open, check_integrity(), read everything through the public API, after Ok(false) a second check_integrity() and read; in the thorough tier also the clean close after Ok(true)/Ok(false) (otherwise, and in the quick tier, the database is torn down with a failing backend and the teardown is ignored). A case is non-trivial when its outcome is anything but `Ok(true)` with the contents of the last commit point; distinct_nontrivial counts distinct (family, outcome class, commit point served, normalised error text / panic site)."),
     );
     rep.cov("samples", json!(samples));
     rep.cov("exhaustive", json!(complete));
